@@ -959,7 +959,7 @@ class Ev:
             # b + [c]*(a - b): the same normal form as the merge after `if (c) x = a;`
             return bv + self.mul(Poly.atom(("guard", cv.canon())), av - bv)
         if k == "MemberExpr":
-            key = self.field_key(n)
+            key = self.field_key(n, env)
             if key in env["fields"]:
                 v = env["fields"][key]
                 if v is None:
@@ -975,11 +975,21 @@ class Ev:
             return Poly.atom(("sym", "sizeof:" + norm_c(self.tu.text_of(n))))
         raise AnalysisError("unsupported expression kind %s in %s" % (k, self.where(n)))
 
-    def field_key(self, n):
-        """member:<type of the object>.<field>@<spelling of the object>"""
+    def field_key(self, n, env=None):
+        """member:<struct type>.<field>@<the object>.  `s.f` and `p->f` of the same struct type give the same type
+        part; a pointer parameter bound to `&obj` of the caller names the caller's object, so that fields read
+        and written through it alias the caller's fields."""
         ks = cfacts.kids(n)
-        bt = _qt(ks[0]).replace("const ", "").replace(" ", "") if ks else "?"
-        return "member:%s.%s@%s" % (bt, n.get("name"), norm_c(self.tu.text_of(ks[0])) if ks else "?")
+        bt = base_type(_qt(ks[0])).replace("*", "").replace("struct ", "").strip() if ks else "?"
+        obj = norm_c(self.tu.text_of(ks[0])) if ks else "?"
+        b = cfacts.strip(ks[0]) if ks else {}
+        if b.get("kind") == "UnaryOperator" and b.get("opcode") == "*":
+            b = cfacts.strip(cfacts.kids(b)[0])
+        if env is not None and b.get("kind") == "DeclRefExpr":
+            bound = env["ptrs"].get(b.get("referencedDecl", {}).get("id"))
+            if bound is not None and str(bound[0]).startswith("obj:") and not bound[1].t:
+                obj = bound[0][4:]
+        return "member:%s.%s@%s" % (bt, n.get("name"), obj)
 
     def where(self, n):
         return "%s:%s `%s`" % (self.tu.rel, self.tu.line_of(n), re.sub(r"\s+", " ", self.tu.text_of(n))[:80])
@@ -1036,7 +1046,7 @@ class Ev:
                 r, off = self.pointer(b, env)
                 return (r, off + self.expr(a, env))
         if k == "MemberExpr":
-            return (self.field_key(n), Poly())
+            return (self.field_key(n, env), Poly())
         if k == "ArraySubscriptExpr" or k == "CallExpr":
             return ("ptr:" + norm_c(self.tu.text_of(n)), Poly())
         if k == "UnaryOperator" and n.get("opcode") == "&":
@@ -1045,6 +1055,10 @@ class Ev:
                 base, idx = cfacts.kids(sub)
                 r, off = self.pointer(base, env)
                 return (r, off + self.expr(idx, env))
+            if sub.get("kind") == "DeclRefExpr" and not _is_ptr(sub):
+                return ("obj:" + str(sub.get("referencedDecl", {}).get("name")), Poly())  # address of an object
+            if sub.get("kind") == "MemberExpr":
+                return (self.field_key(sub, env), Poly())
         raise AnalysisError("unsupported pointer expression in %s" % self.where(n))
 
     def load(self, ptr, idx, env):
@@ -1561,7 +1575,7 @@ class Ev:
                 if l.get("kind") == "MemberExpr" and op is None:
                     rr = cfacts.strip(r)
                     callee = cfacts.strip(cfacts.kids(rr)[0]) if rr.get("kind") == "CallExpr" else {}
-                    env["allocs"][self.field_key(l)] = callee.get("referencedDecl", {}).get("name") or \
+                    env["allocs"][self.field_key(l, env)] = callee.get("referencedDecl", {}).get("name") or \
                         norm_c(self.tu.text_of(rr))
                 return
             if l.get("kind") != "DeclRefExpr":
@@ -1612,7 +1626,7 @@ class Ev:
             env["stores"].append({"root": role, "index": off, "value": rv, "node": l, "conds": tuple(env["conds"])})
             return
         if l.get("kind") == "MemberExpr":
-            env["fields"][self.field_key(l)] = rv
+            env["fields"][self.field_key(l, env)] = rv
             return
         raise AnalysisError("unsupported assignment target (%s)" % self.where(l))
 
